@@ -140,6 +140,16 @@ bool CompareWallet(World& w, uint64_t c, int step, const std::string& op, BalSta
         }
         const bool amb = L.Ambiguous(coin);
         if (amb) ++n_amb;
+        if (amb && getenv("VH_E8_DEBUG")) {
+            for (const auto& t : coin.limbo_spenders) {
+                fprintf(stderr, "step %d op %s: coin %s (h=%d) limbo-spent by %s:", step, op.c_str(), OutpointStr(op_).c_str(), coin.height, t.ToString().c_str());
+                for (const auto& in : L.KnownTxs().at(t)->vin) {
+                    const SCoin* pc = L.Find(in.prevout);
+                    fprintf(stderr, " in=%s[%s,%s]", OutpointStr(in.prevout).substr(0, 12).c_str(), pc ? "exists" : "absent", StatusName(L.Status(in.prevout.hash)));
+                }
+                fprintf(stderr, "\n");
+            }
+        }
         const bool expect = cls == CoinClass::TRUSTED && !sim.Locked().count(op_);
         auto it = avail_w.find(op_);
         if (expect && !amb) {
@@ -261,6 +271,19 @@ void RunBalanceHistory(uint64_t c, vh::Rng& rng, int steps)
         const size_t op = rng.weighted(weights);
         std::string tag = OPN[op];
         const ShadowLedger& L = sim.Ledger();
+        // what the wallet's periodic rebroadcast would do: offer transactions that fell out of the mempool (non-final or premature after a
+        // reorg) to the mempool again. Done by the harness so that the "limbo" state the property does not pin down stays short-lived.
+        if (rng.chance(1, 2)) {
+            bool any = false;
+            for (const Txid& txid : L.KnownOrder()) {
+                if (L.Status(txid) != TxStatus::LIMBO) continue;
+                if (sim.Submit(L.KnownTxs().at(txid)).ok) any = true;
+            }
+            if (any) {
+                vh::log().obs("c44_limbo_resubmitted");
+                sim.Sync();
+            }
+        }
         switch (op) {
         case 0: { // faucet pays the wallet through the mempool
             if (auto t = w.MakeFaucetPay(50000, 2 * COIN)) {
@@ -357,7 +380,7 @@ void RunBalanceHistory(uint64_t c, vh::Rng& rng, int steps)
             const int d = static_cast<int>(rng.range(1, 5));
             const int fork = tip - d;
             if (fork < 101) break;
-            std::vector<CTransactionRef> keep;
+            std::vector<std::vector<CTransactionRef>> blk(d + 1); // transactions of the branch blocks
             std::set<Txid> dropped; // omitted or replaced by a conflicting transaction
             int n_conf = 0, n_keep = 0, n_omit = 0;
             for (int h = fork + 1; h <= tip; ++h) {
@@ -407,12 +430,12 @@ void RunBalanceHistory(uint64_t c, vh::Rng& rng, int steps)
                         }
                         if (ds) {
                             dropped.insert(t->GetHash());
-                            keep.push_back(ds);
+                            blk[d].push_back(ds); // wallet-made transactions carry nLockTime = current height: final only above the old tip
                             ++n_conf;
                             continue;
                         }
                     }
-                    keep.push_back(t);
+                    blk[h - fork - 1].push_back(t); // not below its old height (nLockTime)
                     ++n_keep;
                 }
             }
@@ -420,9 +443,7 @@ void RunBalanceHistory(uint64_t c, vh::Rng& rng, int steps)
             const uint256 old_first = L.BlockHash(fork + 1);
             uint256 new_first;
             for (int i = 0; i < d + 1; ++i) {
-                std::vector<CTransactionRef> txs;
-                if (i == 0) txs = keep;
-                const uint256 h = sim.MineOn(&parent, txs, rng.chance(1, 4) ? w.WalletScript() : WalletSim::BurnScript());
+                const uint256 h = sim.MineOn(&parent, blk[i], rng.chance(1, 4) ? w.WalletScript() : WalletSim::BurnScript());
                 if (i == 0) new_first = h;
                 parent = h;
             }
@@ -514,6 +535,820 @@ void RunBalanceHistory(uint64_t c, vh::Rng& rng, int steps)
     vh::log().rec(j);
 }
 
+
+// =========================================================================================================================================
+// C41 — request generator (also the source of "original" transactions for C56)
+// =========================================================================================================================================
+
+struct RecipInfo {
+    std::string kind;
+    bool standard{true};
+    bool own{false};
+};
+
+struct Request {
+    std::vector<CRecipient> recips;
+    std::vector<RecipInfo> info;
+    std::optional<unsigned> change_pos;
+    CCoinControl cc;
+    bool sign{true};
+    int64_t feerate_kvb{0};
+    CAmount max_tx_fee{wallet::DEFAULT_TRANSACTION_MAXFEE};
+    std::vector<COutPoint> presets;
+    std::map<COutPoint, CTxOut> external; //!< preset inputs that are not the wallet's (faucet coins)
+    std::string amount_mode, fee_mode, preset_mode;
+    int change_type{-1};
+    bool dest_change{false};
+};
+
+struct GenOpts {
+    bool tame{false};      //!< C56 originals: requests that normally succeed and are accepted (no exotic presets, sane feerates)
+    bool allow_tiny{false}; //!< allow 2-byte witness programs as recipients (see the report: 64-byte transactions)
+};
+
+CAmount SpendableTotal(const WalletSim& sim, bool include_unsafe)
+{
+    const ShadowLedger& L = sim.Ledger();
+    CAmount s = 0;
+    for (const auto& [op, c] : L.Coins()) {
+        const CoinClass cls = L.Classify(c);
+        if ((cls == CoinClass::TRUSTED || (include_unsafe && cls == CoinClass::UNTRUSTED_PENDING)) && !sim.Locked().count(op) && !L.Ambiguous(c)) s += c.out.nValue;
+    }
+    return s;
+}
+
+Request GenRequest(World& w, const GenOpts& go)
+{
+    vh::Rng& rng = w.rng;
+    WalletSim& sim = w.sim;
+    const ShadowLedger& L = sim.Ledger();
+    Request rq;
+    CCoinControl& cc = rq.cc;
+    // --- fee rate
+    {
+        const size_t m = go.tame ? rng.weighted({30, 70, 0, 0, 0}) : rng.weighted({15, 50, 12, 13, 10});
+        switch (m) {
+        case 0: rq.feerate_kvb = 1000; rq.fee_mode = "min"; break;
+        case 1: rq.feerate_kvb = rng.range(1000, rng.chance(1, 3) ? 150000 : 20000); rq.fee_mode = "normal"; break;
+        case 2: rq.feerate_kvb = rng.range(0, 999); cc.fOverrideFeeRate = true; rq.fee_mode = "low_override"; break;
+        case 3: rq.feerate_kvb = rng.range(200000, 3000000); rq.fee_mode = "high"; break;
+        case 4: rq.feerate_kvb = rng.chance(1, 2) ? 100 : rng.range(100, 1000); cc.fOverrideFeeRate = rng.chance(4, 5); rq.fee_mode = "relay_min"; break;
+        }
+        cc.m_feerate = CFeeRate(rq.feerate_kvb);
+    }
+    if (!go.tame && rng.chance(3, 10)) rq.max_tx_fee = rng.range(1500, 60000);
+    // --- coin control
+    cc.m_include_unsafe_inputs = rng.chance(1, 4);
+    if (!go.tame) {
+        const size_t d = rng.weighted({70, 18, 12});
+        cc.m_min_depth = d == 0 ? 0 : (d == 1 ? 1 : static_cast<int>(rng.range(2, 8)));
+        if (rng.chance(1, 12)) cc.m_max_depth = static_cast<int>(rng.range(cc.m_min_depth, 60));
+        cc.m_avoid_partial_spends = rng.chance(1, 7);
+        cc.m_avoid_address_reuse = rng.chance(1, 2);
+    }
+    if (rng.chance(1, 2)) cc.m_signal_bip125_rbf = go.tame ? true : rng.coin();
+    if (rng.chance(2, 5)) {
+        rq.change_type = static_cast<int>(rng.below(4));
+        cc.m_change_type = OTYPES[rq.change_type];
+    }
+    if (!go.tame && rng.chance(1, 10)) {
+        cc.destChange = sim.NewChangeDest(OTYPES[rng.below(4)]);
+        rq.dest_change = true;
+    }
+    const CAmount S = SpendableTotal(sim, cc.m_include_unsafe_inputs);
+    // --- preset inputs
+    std::vector<const SCoin*> spendable, locked, immature, pending, spent;
+    for (const auto& [op, c] : L.Coins()) {
+        const CoinClass cls = L.Classify(c);
+        if (sim.Locked().count(op) && cls != CoinClass::SPENT) locked.push_back(&c);
+        else if (cls == CoinClass::TRUSTED) spendable.push_back(&c);
+        else if (cls == CoinClass::IMMATURE) immature.push_back(&c);
+        else if (cls == CoinClass::UNTRUSTED_PENDING) pending.push_back(&c);
+        else spent.push_back(&c);
+    }
+    CAmount preset_value = 0;
+    const SCoin* dust_change_coin = nullptr;
+    if (rng.chance(go.tame ? 15 : 35, 100) && !spendable.empty()) {
+        const int np = static_cast<int>(rng.range(1, 3));
+        rq.preset_mode = "spendable";
+        for (int i = 0; i < np; ++i) {
+            const SCoin* c = spendable[rng.below(spendable.size())];
+            if (!go.tame) {
+                const size_t k = rng.weighted({70, 8, 8, 7, 7});
+                if (k == 1 && !locked.empty()) { c = locked[rng.below(locked.size())]; rq.preset_mode = "locked"; }
+                if (k == 2 && !immature.empty()) { c = immature[rng.below(immature.size())]; rq.preset_mode = "immature"; }
+                if (k == 3 && !pending.empty()) { c = pending[rng.below(pending.size())]; rq.preset_mode = "pending"; }
+                if (k == 4 && !spent.empty()) { c = spent[rng.below(spent.size())]; rq.preset_mode = "spent"; }
+            }
+            if (std::find(rq.presets.begin(), rq.presets.end(), c->op) != rq.presets.end()) continue;
+            rq.presets.push_back(c->op);
+            preset_value += c->out.nValue;
+            cc.Select(c->op);
+            if (i == 0 && np == 1) dust_change_coin = c;
+        }
+        cc.m_allow_other_inputs = !rng.chance(3, 10);
+    }
+    if (!go.tame && rng.chance(8, 100)) {
+        // external input: a confirmed faucet coin; the caller supplies the output and solving data, the wallet cannot sign it
+        if (auto fc = sim.ReserveFaucetCoin()) {
+            rq.presets.push_back(fc->op);
+            rq.external[fc->op] = fc->out;
+            cc.Select(fc->op).SetTxOut(fc->out);
+            const CPubKey pk = sim.FaucetKey().GetPubKey();
+            cc.m_external_provider.pubkeys[pk.GetID()] = pk;
+            rq.sign = false;
+            preset_value += fc->out.nValue;
+            rq.preset_mode += "+external";
+            if (rng.chance(1, 2)) cc.m_allow_other_inputs = true;
+        }
+    }
+    // --- recipients
+    const int nrec = go.tame ? static_cast<int>(rng.range(1, 3)) : static_cast<int>(1 + rng.weighted({50, 25, 12, 6, 4, 3}));
+    const CAmount fee_guess = rq.feerate_kvb * (60 + 70 * std::max<int>(1, rq.presets.size()) + 35 * nrec) / 1000;
+    const CAmount budget = (!cc.m_allow_other_inputs) ? preset_value : S + preset_value;
+    const size_t amode = go.tame ? 0 : rng.weighted({48, 14, 8, 12, 8, 10});
+    const char* AM[] = {"small", "near_total", "over", "dust_change", "tiny", "send_all_sffo"};
+    rq.amount_mode = AM[amode];
+    bool force_sffo_all = false;
+    CAmount total_target = 0;
+    switch (amode) {
+    case 0: total_target = rng.range(nrec * 1000, std::max<CAmount>(nrec * 2000, budget / (rng.chance(1, 2) ? 30 : 4))); break;
+    case 1: total_target = budget - (rng.chance(1, 3) ? 0 : rng.range(0, 2 * fee_guess + 3000)); break;
+    case 2: total_target = budget + rng.range(1, 100000); break;
+    case 3:
+        if (dust_change_coin) {
+            cc.m_allow_other_inputs = false;
+            total_target = preset_value - fee_guess - rng.range(0, 1500);
+        } else {
+            total_target = budget / 3;
+        }
+        break;
+    case 4: total_target = nrec * rng.range(250, 1200); break;
+    case 5: total_target = budget; force_sffo_all = true; break;
+    }
+    if (total_target < nrec) total_target = nrec;
+    const bool any_sffo = force_sffo_all || rng.chance(go.tame ? 15 : 30, 100);
+    CAmount left = total_target;
+    for (int i = 0; i < nrec; ++i) {
+        RecipInfo ri;
+        CTxDestination d;
+        const size_t dk = rng.weighted({82, 12, static_cast<uint32_t>(go.tame ? 0 : 4), static_cast<uint32_t>(go.tame ? 0 : 2)});
+        if (dk == 0) {
+            ForeignKind fk = static_cast<ForeignKind>(rng.below(static_cast<uint64_t>(ForeignKind::NONSTANDARD)));
+            d = WalletSim::ForeignDest(rng, fk);
+            if (fk == ForeignKind::WIT_UNKNOWN && !go.allow_tiny) {
+                while (std::get<WitnessUnknown>(d).GetWitnessProgram().size() < 3) d = WalletSim::ForeignDest(rng, fk);
+            }
+            ri.kind = FK_NAME[static_cast<int>(fk)];
+        } else if (dk == 1) {
+            int t;
+            d = w.WalletDest(&t);
+            ri.kind = std::string("own-") + OTYPE_NAME[t];
+            ri.own = true;
+        } else if (dk == 2) {
+            d = WalletSim::ForeignDest(rng, ForeignKind::NONSTANDARD);
+            ri.kind = "nonstandard";
+            ri.standard = false;
+        } else {
+            d = CNoDestination(CScript() << OP_RETURN << rng.bytes(rng.range(1, 40)));
+            ri.kind = "nulldata";
+        }
+        CAmount amt = (i == nrec - 1) ? left : std::max<CAmount>(1, left * static_cast<CAmount>(rng.range(5, 70)) / 100);
+        if (amt < 0) amt = 0;
+        left -= amt;
+        if (ri.kind == "nulldata") {
+            left += amt;
+            amt = 0;
+        }
+        const bool sffo = ri.kind != "nulldata" && (force_sffo_all ? true : (any_sffo && rng.chance(1, 2)));
+        rq.recips.push_back({d, amt, sffo});
+        rq.info.push_back(ri);
+    }
+    if (rng.chance(3, 10)) rq.change_pos = static_cast<unsigned>(rng.below(nrec + (rng.chance(1, 15) ? 3 : 1)));
+    return rq;
+}
+
+std::string JCoins(const WalletSim& sim)
+{
+    const ShadowLedger& L = sim.Ledger();
+    std::vector<std::string> v;
+    for (const auto& [op, c] : L.Coins()) {
+        v.push_back("[" + JOp(op) + "," + JNum(c.out.nValue) + "," + JNum(L.Depth(c)) + "," + (c.coinbase ? "1" : "0") + "," +
+                    (c.spent_chain ? "\"c\"" : (c.spent_mempool ? "\"m\"" : "\"\"")) + "," + (L.Ambiguous(c) ? "1" : "0") + "," + vh::JStr(ClassName(L.Classify(c))) + "," +
+                    (sim.Locked().count(op) ? "1" : "0") + "," + (L.ScriptWasSpentFrom(c.out.scriptPubKey) ? "1" : "0") + "]");
+    }
+    return vh::JArr(v);
+}
+
+std::string JRequest(const Request& rq, WalletSim& sim)
+{
+    std::vector<std::string> rec, pre;
+    for (size_t i = 0; i < rq.recips.size(); ++i) {
+        rec.push_back(vh::J().hex("spk", GetScriptForDestination(rq.recips[i].dest)).i("amt", rq.recips[i].nAmount).b("sffo", rq.recips[i].fSubtractFeeFromAmount)
+                          .str("kind", rq.info[i].kind).b("std", rq.info[i].standard).b("own", rq.info[i].own).done());
+    }
+    for (const auto& op : rq.presets) {
+        vh::J j;
+        j.str("op", OutpointStr(op));
+        auto ext = rq.external.find(op);
+        j.b("ext", ext != rq.external.end());
+        if (ext != rq.external.end()) j.i("value", ext->second.nValue);
+        else if (auto o = sim.Ledger().FindAnyOutput(op)) j.i("value", o->nValue);
+        pre.push_back(j.done());
+    }
+    vh::J j;
+    j.raw("recips", vh::JArr(rec)).raw("presets", vh::JArr(pre)).i("feerate", rq.feerate_kvb).b("override", rq.cc.fOverrideFeeRate)
+        .b("allow_other", rq.cc.m_allow_other_inputs).b("include_unsafe", rq.cc.m_include_unsafe_inputs).i("min_depth", rq.cc.m_min_depth).i("max_depth", rq.cc.m_max_depth)
+        .b("aps", rq.cc.m_avoid_partial_spends).b("avoid_reuse", rq.cc.m_avoid_address_reuse).i("change_type", rq.change_type).b("dest_change", rq.dest_change)
+        .i("max_tx_fee", rq.max_tx_fee).b("sign", rq.sign).str("amount_mode", rq.amount_mode).str("fee_mode", rq.fee_mode).str("preset_mode", rq.preset_mode);
+    if (rq.dest_change) j.hex("dest_change_spk", GetScriptForDestination(rq.cc.destChange));
+    if (rq.change_pos) j.i("change_pos", *rq.change_pos); else j.null("change_pos");
+    if (rq.cc.m_signal_bip125_rbf) j.b("rbf", *rq.cc.m_signal_bip125_rbf); else j.null("rbf");
+    return j.done();
+}
+
+struct Created {
+    bool ok{false};
+    std::string err;
+    CTransactionRef tx;  //!< fully signed when `complete`
+    bool complete{false};
+    CAmount fee{0};
+    std::optional<unsigned> change_pos;
+};
+
+//! Run the request through wallet::CreateTransaction (and complete the signatures when external inputs are involved).
+Created RunRequest(World& w, const Request& rq)
+{
+    WalletSim& sim = w.sim;
+    Created cr;
+    const CAmount saved_max = sim.W().m_default_max_tx_fee;
+    sim.W().m_default_max_tx_fee = rq.max_tx_fee;
+    auto res = sim.Create(rq.recips, rq.change_pos, rq.cc, rq.sign, &cr.err);
+    sim.W().m_default_max_tx_fee = saved_max;
+    if (!res) return cr;
+    cr.ok = true;
+    cr.fee = res->fee;
+    cr.change_pos = res->change_pos;
+    cr.tx = res->tx;
+    cr.complete = rq.sign;
+    if (!rq.sign) {
+        CMutableTransaction mtx(*res->tx);
+        std::map<COutPoint, Coin> coins;
+        std::map<COutPoint, CTxOut> prevouts;
+        bool all_known = true;
+        for (const auto& in : mtx.vin) {
+            std::optional<CTxOut> o;
+            auto e = rq.external.find(in.prevout);
+            if (e != rq.external.end()) o = e->second;
+            else o = sim.Ledger().FindAnyOutput(in.prevout);
+            if (!o) {
+                all_known = false;
+                continue;
+            }
+            const SCoin* sc = sim.Ledger().Find(in.prevout);
+            coins[in.prevout] = Coin(*o, sc && sc->height >= 0 ? sc->height : 1, sc && sc->coinbase);
+            prevouts[in.prevout] = *o;
+        }
+        std::map<int, bilingual_str> input_errors;
+        sim.W().SignTransaction(mtx, coins, SIGHASH_DEFAULT, input_errors);
+        sim.FaucetSign(mtx, prevouts);
+        cr.tx = MakeTransactionRef(std::move(mtx));
+        cr.complete = all_known;
+        for (const auto& in : cr.tx->vin) {
+            if (in.scriptSig.empty() && in.scriptWitness.IsNull()) cr.complete = false;
+        }
+    }
+    return cr;
+}
+
+std::string JCreated(const Created& cr, WalletSim& sim)
+{
+    vh::J j;
+    j.b("ok", cr.ok);
+    if (!cr.ok) {
+        j.str("err", cr.err);
+        return j.done();
+    }
+    j.str("tx", TxHex(*cr.tx)).i("fee", cr.fee).b("complete", cr.complete);
+    if (cr.change_pos) j.i("change_pos", *cr.change_pos); else j.null("change_pos");
+    std::vector<std::string> mine, ins;
+    {
+        LOCK(sim.W().cs_wallet);
+        for (const auto& o : cr.tx->vout) mine.push_back(sim.W().IsMine(o.scriptPubKey) ? "1" : "0");
+    }
+    j.raw("mine_out", vh::JArr(mine));
+    return j.done();
+}
+
+void HouseKeeping(World& w, int64_t& blocks, int64_t& funded)
+{
+    vh::Rng& rng = w.rng;
+    WalletSim& sim = w.sim;
+    const size_t k = rng.weighted({45, 20, 15, 6, 14});
+    switch (k) {
+    case 0: break;
+    case 1:
+        sim.MineMempool(rng.chance(1, 5) ? w.WalletScript() : WalletSim::BurnScript());
+        ++blocks;
+        break;
+    case 2:
+        if (auto t = w.MakeFaucetPay(2000, COIN / 2)) {
+            if (sim.Submit(t).ok) ++funded;
+        }
+        break;
+    case 3:
+        if (auto t = w.MakeFaucetPay(2000, COIN / 2, true)) {
+            sim.MineOn(nullptr, {t}, WalletSim::BurnScript());
+            ++funded;
+            ++blocks;
+        }
+        break;
+    case 4: {
+        if (!sim.Locked().empty() && rng.chance(1, 2)) {
+            auto it = sim.Locked().begin();
+            std::advance(it, rng.below(sim.Locked().size()));
+            sim.Unlock(*it);
+        } else {
+            std::vector<COutPoint> cands;
+            for (const auto& [op_, coin] : sim.Ledger().Coins()) {
+                if (coin.Unspent()) cands.push_back(op_);
+            }
+            if (!cands.empty()) sim.Lock(cands[rng.below(cands.size())], false);
+        }
+        break;
+    }
+    }
+    sim.Sync();
+}
+
+//! Fund a fresh wallet with confirmed coins of mixed types and sizes, some immature coinbases and some unconfirmed receives.
+void InitialFunding(World& w)
+{
+    vh::Rng& rng = w.rng;
+    WalletSim& sim = w.sim;
+    sim.Sync();
+    const int rounds = static_cast<int>(rng.range(3, 5));
+    for (int r = 0; r < rounds; ++r) {
+        std::vector<CTxOut> outs;
+        const int n = static_cast<int>(rng.range(6, 14));
+        for (int i = 0; i < n; ++i) {
+            const size_t cls = rng.weighted({15, 45, 40});
+            const CAmount v = cls == 0 ? rng.range(600, 6000) : (cls == 1 ? rng.range(10000, 600000) : rng.range(1000000, 2 * COIN));
+            outs.emplace_back(v, w.WalletScript());
+        }
+        std::vector<CTransactionRef> txs;
+        if (auto t = sim.FaucetTx(outs, 20000, true, {}, true)) txs.push_back(t);
+        sim.MineOn(nullptr, txs, rng.chance(1, 2) ? w.WalletScript() : WalletSim::BurnScript());
+        sim.Sync();
+    }
+    sim.MineEmpty(static_cast<int>(rng.range(0, 7)));
+    sim.Sync();
+    for (int i = 0; i < 2; ++i) {
+        if (auto t = w.MakeFaucetPay(5000, COIN / 4)) sim.Submit(t);
+    }
+    sim.Sync();
+}
+
+void RunCreateCase(uint64_t c, vh::Rng& rng, int ops, bool allow_tiny)
+{
+    Options o;
+    o.keypool = 30;
+    o.avoid_reuse = rng.chance(1, 4);
+    World w(o, rng);
+    WalletSim& sim = w.sim;
+    InitialFunding(w);
+    GenOpts go;
+    go.allow_tiny = allow_tiny;
+    int64_t blocks = 0, funded = 0, created = 0, committed = 0;
+    const int64_t min_relay = sim.Pool().m_opts.min_relay_feerate.GetFeePerK();
+    for (int i = 0; i < ops; ++i) {
+        sim.Sync();
+        Request rq = GenRequest(w, go);
+        const std::string coins = JCoins(sim);
+        const std::string jreq = JRequest(rq, sim);
+        Created cr = RunRequest(w, rq);
+        vh::J j;
+        j.u("case", c).i("op", i).i("tip", sim.Ledger().TipHeight()).b("wallet_avoid_reuse", o.avoid_reuse).i("min_relay", min_relay)
+            .raw("req", jreq).raw("coins", coins).raw("res", JCreated(cr, sim));
+        bool accepted = false;
+        if (cr.ok && cr.complete) {
+            const Accept a = sim.TestAccept(cr.tx);
+            accepted = a.ok;
+            j.raw("accept", vh::J().b("ok", a.ok).str("reason", a.reason).i("vsize", a.vsize).i("fees", a.fees).done());
+        }
+        // wallet state must not depend on whether creation succeeded; the dump is not compared here (C43), only the lock set
+        vh::log().rec(j);
+        if (cr.ok) ++created;
+        if (cr.ok && accepted && rng.chance(6, 10)) {
+            sim.Commit(cr.tx);
+            ++committed;
+        }
+        HouseKeeping(w, blocks, funded);
+    }
+    vh::log().rec(vh::J().u("case", c).b("summary", true).i("created", created).i("committed", committed).i("blocks", blocks).i("funded", funded).b("wallet_avoid_reuse", o.avoid_reuse));
+}
+
+
+// =========================================================================================================================================
+// C56
+// =========================================================================================================================================
+
+const char* BumpResultName(wallet::feebumper::Result r)
+{
+    using R = wallet::feebumper::Result;
+    switch (r) {
+    case R::OK: return "OK";
+    case R::INVALID_ADDRESS_OR_KEY: return "INVALID_ADDRESS_OR_KEY";
+    case R::INVALID_REQUEST: return "INVALID_REQUEST";
+    case R::INVALID_PARAMETER: return "INVALID_PARAMETER";
+    case R::WALLET_ERROR: return "WALLET_ERROR";
+    case R::MISC_ERROR: return "MISC_ERROR";
+    }
+    return "?";
+}
+
+//! value of every input of tx as the model / the request knows it; -1 when unknown
+std::string JInputValues(const CTransaction& tx, WalletSim& sim, const std::map<COutPoint, CTxOut>& external, bool* all_mine = nullptr)
+{
+    std::vector<std::string> v;
+    if (all_mine) *all_mine = true;
+    for (const auto& in : tx.vin) {
+        CAmount val = -1;
+        bool mine = false;
+        auto e = external.find(in.prevout);
+        if (e != external.end()) val = e->second.nValue;
+        else if (auto o = sim.Ledger().FindAnyOutput(in.prevout)) {
+            val = o->nValue;
+            mine = true;
+        }
+        if (all_mine && !mine) *all_mine = false;
+        v.push_back("[" + JOp(in.prevout) + "," + JNum(val) + "," + (mine ? "1" : "0") + "]");
+    }
+    return vh::JArr(v);
+}
+
+struct BumpStats {
+    int64_t attempts{0}, ok{0}, refused_expected{0}, refused_other{0}, skipped{0};
+};
+
+void RunBumpCase(uint64_t c, vh::Rng& rng, int ops)
+{
+    namespace fb = wallet::feebumper;
+    Options o;
+    o.keypool = 30;
+    World w(o, rng);
+    WalletSim& sim = w.sim;
+    InitialFunding(w);
+    GenOpts go;
+    go.tame = true;
+    BumpStats st;
+    int64_t blocks = 0, funded = 0;
+    const int64_t incr = sim.Pool().m_opts.incremental_relay_feerate.GetFeePerK();
+    const int64_t min_relay = sim.Pool().m_opts.min_relay_feerate.GetFeePerK();
+    const std::vector<uint32_t> weights{24, 20, 8, 10, 8, 5, 8, 5, 5, 4, 3, 4, 2, 1, 9};
+    const char* SCN[] = {"plain", "rate_ok", "rate_low", "outputs", "oci_change", "oci_recipient", "ancestor_confirmed", "r_confirmed", "r_already_bumped",
+                         "r_wallet_descendant", "r_mempool_descendant", "r_not_mine", "r_conflicted", "r_unknown_txid", "small_change"};
+    for (int i = 0; i < ops; ++i) {
+        sim.Sync();
+        const size_t scn = rng.weighted(weights);
+        std::string tag = SCN[scn];
+        // ---- the original
+        Request rq;
+        Created cr;
+        std::optional<Created> parent;
+        bool made = false;
+        for (int attempt = 0; attempt < 4 && !made; ++attempt) {
+            sim.Sync();
+            rq = GenRequest(w, go);
+            if (scn == 6) {
+                // parent P first (its change stays unconfirmed), original spends P's change
+                Request prq = GenRequest(w, go);
+                Created pc = RunRequest(w, prq);
+                if (!pc.ok || !pc.change_pos || !sim.TestAccept(pc.tx).ok) continue;
+                sim.Commit(pc.tx);
+                sim.Sync();
+                parent = pc;
+                rq = GenRequest(w, go);
+                rq.cc.Select(COutPoint(pc.tx->GetHash(), *pc.change_pos));
+                rq.presets.push_back(COutPoint(pc.tx->GetHash(), *pc.change_pos));
+                rq.cc.m_allow_other_inputs = true;
+            }
+            if (scn == 10) {
+                // one recipient is the faucet, so that a non-wallet transaction can spend an output of the original in the mempool
+                rq.recips[0].dest = WitnessV0KeyHash(sim.FaucetKey().GetPubKey());
+                rq.recips[0].nAmount = std::max<CAmount>(rq.recips[0].nAmount, 30000);
+                rq.recips[0].fSubtractFeeFromAmount = false;
+                rq.info[0].kind = "faucet";
+                rq.info[0].own = false;
+            }
+            if (scn == 11) {
+                if (auto fc = sim.ReserveFaucetCoin()) {
+                    rq.presets.push_back(fc->op);
+                    rq.external[fc->op] = fc->out;
+                    rq.cc.Select(fc->op).SetTxOut(fc->out);
+                    const CPubKey pk = sim.FaucetKey().GetPubKey();
+                    rq.cc.m_external_provider.pubkeys[pk.GetID()] = pk;
+                    rq.cc.m_allow_other_inputs = true;
+                    rq.sign = false;
+                } else {
+                    continue;
+                }
+            }
+            if (scn == 14) {
+                // a change output so small that the bump has to drop it or add inputs
+                std::vector<const SCoin*> sp;
+                for (const auto& [op, coin] : sim.Ledger().Coins()) {
+                    if (sim.Ledger().Classify(coin) == CoinClass::TRUSTED && coin.height >= 0 && !sim.Locked().count(op) && !sim.Ledger().Ambiguous(coin) && coin.out.nValue > 30000) sp.push_back(&coin);
+                }
+                if (sp.empty()) continue;
+                const SCoin* coin = sp[rng.below(sp.size())];
+                rq = Request{};
+                rq.feerate_kvb = rng.range(1000, 5000);
+                rq.cc.m_feerate = CFeeRate(rq.feerate_kvb);
+                rq.cc.Select(coin->op);
+                rq.presets.push_back(coin->op);
+                rq.cc.m_allow_other_inputs = false;
+                rq.recips.push_back({WalletSim::ForeignDest(rng, static_cast<ForeignKind>(rng.below(6))), coin->out.nValue - rng.range(1200, 9000), false});
+                rq.info.push_back({"foreign", true, false});
+                rq.amount_mode = "small_change";
+            }
+            cr = RunRequest(w, rq);
+            if (!cr.ok || !cr.complete) continue;
+            if (!sim.TestAccept(cr.tx).ok) continue;
+            sim.Commit(cr.tx);
+            sim.Sync();
+            made = sim.Ledger().Status(cr.tx->GetHash()) == TxStatus::MEMPOOL;
+        }
+        if (!made) {
+            ++st.skipped;
+            vh::log().obs("c56_original_not_made");
+            continue;
+        }
+        const CTransactionRef orig = cr.tx;
+        const Txid orig_txid = orig->GetHash();
+        Txid target = orig_txid;
+        bool expect_refusal = false;
+        std::string refusal_class;
+        // ---- scenario set-up
+        bool setup_ok = true;
+        switch (scn) {
+        case 6: { // confirm the parent only
+            sim.MineOn(nullptr, {parent->tx}, WalletSim::BurnScript());
+            sim.Sync();
+            setup_ok = sim.Ledger().Status(parent->tx->GetHash()) == TxStatus::CHAIN && sim.Ledger().Status(orig_txid) == TxStatus::MEMPOOL;
+            break;
+        }
+        case 7: {
+            sim.MineMempool(WalletSim::BurnScript());
+            sim.Sync();
+            setup_ok = sim.Ledger().Status(orig_txid) == TxStatus::CHAIN;
+            expect_refusal = true;
+            refusal_class = "confirmed";
+            break;
+        }
+        case 8: { // a first, successful bump
+            std::vector<bilingual_str> errs;
+            CAmount of, nf;
+            CMutableTransaction m;
+            CCoinControl bcc;
+            if (fb::CreateRateBumpTransaction(sim.W(), orig_txid, bcc, errs, of, nf, m, true, {}) == fb::Result::OK && fb::SignTransaction(sim.W(), m)) {
+                Txid b;
+                CTransactionRef keep = MakeTransactionRef(m);
+                setup_ok = fb::CommitTransaction(sim.W(), orig_txid, std::move(m), errs, b) == fb::Result::OK;
+                sim.LedgerMut().NoteTx(keep);
+                sim.Sync();
+            } else {
+                setup_ok = false;
+            }
+            expect_refusal = true;
+            refusal_class = "already_bumped";
+            break;
+        }
+        case 9: { // a wallet transaction spending the original's change
+            if (!cr.change_pos) {
+                setup_ok = false;
+                break;
+            }
+            Request crq;
+            crq.feerate_kvb = 2000;
+            crq.cc.m_feerate = CFeeRate(2000);
+            const COutPoint ch(orig_txid, *cr.change_pos);
+            crq.cc.Select(ch);
+            crq.cc.m_allow_other_inputs = true;
+            crq.recips.push_back({WalletSim::ForeignDest(rng, ForeignKind::P2WPKH), std::max<CAmount>(1000, orig->vout[*cr.change_pos].nValue / 3), false});
+            crq.info.push_back({"foreign", true, false});
+            Created child = RunRequest(w, crq);
+            if (!child.ok) {
+                setup_ok = false;
+                break;
+            }
+            // half of the time the child is only in the wallet, not in the mempool
+            if (rng.coin()) sim.W().SetBroadcastTransactions(false);
+            sim.Commit(child.tx);
+            sim.W().SetBroadcastTransactions(true);
+            sim.Sync();
+            expect_refusal = true;
+            refusal_class = "wallet_descendant";
+            break;
+        }
+        case 10: {
+            int idx = -1;
+            for (size_t k = 0; k < orig->vout.size(); ++k) {
+                if (orig->vout[k].scriptPubKey == sim.FaucetScript()) idx = static_cast<int>(k);
+            }
+            CTransactionRef child;
+            if (idx >= 0 && orig->vout[idx].nValue > 5000) {
+                std::vector<CTxOut> outs;
+                outs.emplace_back(orig->vout[idx].nValue - 3000, GetScriptForDestination(WalletSim::ForeignDest(rng, ForeignKind::P2WPKH)));
+                CMutableTransaction m;
+                m.version = 2;
+                m.vin.emplace_back(COutPoint(orig_txid, idx), CScript{}, MAX_BIP125_RBF_SEQUENCE);
+                m.vout = outs;
+                sim.FaucetSign(m, {{COutPoint(orig_txid, idx), orig->vout[idx]}});
+                child = MakeTransactionRef(std::move(m));
+            }
+            setup_ok = child && sim.Submit(child).ok;
+            sim.Sync();
+            expect_refusal = true;
+            refusal_class = "mempool_descendant";
+            break;
+        }
+        case 11:
+            expect_refusal = true;
+            refusal_class = "not_mine";
+            break;
+        case 12: { // double-spend the original with a confirmed wallet-made transaction
+            const COutPoint in0 = orig->vin[0].prevout;
+            const SCoin* coin = sim.Ledger().Find(in0);
+            CTransactionRef ds = coin ? WalletDoubleSpend(w, in0, coin->out.nValue, 3000) : nullptr;
+            if (!ds) {
+                setup_ok = false;
+                break;
+            }
+            sim.MineOn(nullptr, {ds}, WalletSim::BurnScript());
+            sim.Sync();
+            setup_ok = sim.Ledger().Status(orig_txid) == TxStatus::CONFLICTED;
+            expect_refusal = true;
+            refusal_class = "conflicted";
+            break;
+        }
+        case 13: {
+            target = Txid::FromUint256(uint256(rng.bytes(32)));
+            expect_refusal = true;
+            refusal_class = "unknown_txid";
+            break;
+        }
+        default: break;
+        }
+        if (!setup_ok) {
+            ++st.skipped;
+            vh::log().obs("c56_setup_failed");
+            continue;
+        }
+        // ---- facts about the original, from the model
+        const ShadowLedger& L = sim.Ledger();
+        bool orig_all_mine = true;
+        const std::string orig_inputs = JInputValues(*orig, sim, rq.external, &orig_all_mine);
+        bool wallet_desc = false, pool_desc = false;
+        for (const auto& [txid, t] : L.KnownTxs()) {
+            if (txid == orig_txid) continue;
+            for (const auto& in : t->vin) {
+                if (in.prevout.hash == orig_txid) wallet_desc = true;
+            }
+        }
+        for (const auto& t : L.MempoolTxs()) {
+            for (const auto& in : t->vin) {
+                if (in.prevout.hash == orig_txid) pool_desc = true;
+            }
+        }
+        const std::string orig_status = StatusName(L.Status(orig_txid));
+        const int64_t orig_vsize = TxVSize(*orig);
+        // ---- the bump request
+        CCoinControl bcc;
+        int64_t req_rate = -1;
+        std::vector<CTxOut> outputs;
+        std::optional<uint32_t> oci;
+        std::string out_mode;
+        const bool require_mine = true;
+        if (scn == 1 || (scn >= 3 && scn <= 6 && rng.chance(1, 3)) || (scn == 14 && rng.chance(1, 2))) {
+            req_rate = cr.fee * 1000 / orig_vsize + rng.range(1500, 40000);
+        } else if (scn == 2) {
+            req_rate = rng.chance(1, 2) ? std::max<int64_t>(0, cr.fee * 1000 / orig_vsize - rng.range(0, 500)) : cr.fee * 1000 / orig_vsize + rng.range(0, incr - 1);
+        }
+        if (req_rate >= 0) bcc.m_feerate = CFeeRate(req_rate);
+        if (rng.chance(1, 3)) bcc.m_signal_bip125_rbf = true;
+        if (scn == 3) {
+            // caller-supplied outputs: the original recipients with an amount changed / one more recipient / one fewer
+            for (size_t k = 0; k < orig->vout.size(); ++k) {
+                if (cr.change_pos && *cr.change_pos == k) continue;
+                outputs.push_back(orig->vout[k]);
+            }
+            const size_t m = rng.weighted({40, 30, 30});
+            if (m == 0) {
+                CTxOut& o = outputs[rng.below(outputs.size())];
+                o.nValue = std::max<CAmount>(1000, o.nValue * static_cast<CAmount>(rng.range(50, 110)) / 100);
+                out_mode = "amount";
+            } else if (m == 1) {
+                outputs.emplace_back(rng.range(1000, 50000), GetScriptForDestination(WalletSim::ForeignDest(rng, ForeignKind::P2WPKH)));
+                out_mode = "added";
+            } else if (outputs.size() > 1) {
+                outputs.erase(outputs.begin() + rng.below(outputs.size()));
+                out_mode = "removed";
+            } else {
+                out_mode = "same";
+            }
+        } else if (scn == 4 && cr.change_pos) {
+            oci = *cr.change_pos;
+        } else if (scn == 5) {
+            std::vector<uint32_t> idx;
+            for (size_t k = 0; k < orig->vout.size(); ++k) {
+                if (!(cr.change_pos && *cr.change_pos == k)) idx.push_back(k);
+            }
+            oci = idx[rng.below(idx.size())];
+            if (rng.chance(1, 12)) oci = orig->vout.size() + rng.below(3); // out of range
+        }
+        ++st.attempts;
+        const std::string dump_before = sim.Dump(true);
+        std::vector<bilingual_str> errors;
+        CAmount old_fee = -1, new_fee = -1;
+        CMutableTransaction mtx;
+        const fb::Result res = fb::CreateRateBumpTransaction(sim.W(), target, bcc, errors, old_fee, new_fee, mtx, require_mine, outputs, oci);
+        sim.Drain();
+        const std::string dump_after = sim.Dump(true);
+        std::string errtxt;
+        for (const auto& e : errors) errtxt += e.original + " | ";
+        std::vector<std::string> jouts;
+        for (const auto& o_ : outputs) jouts.push_back(vh::J().hex("spk", o_.scriptPubKey).i("amt", o_.nValue).done());
+        std::vector<std::string> orig_mine;
+        {
+            LOCK(sim.W().cs_wallet);
+            for (const auto& o_ : orig->vout) orig_mine.push_back(sim.W().IsMine(o_.scriptPubKey) ? "1" : "0");
+        }
+        vh::J j;
+        j.u("case", c).i("op", i).str("scenario", tag).str("out_mode", out_mode).b("expect_refusal", expect_refusal).str("refusal_class", refusal_class)
+            .raw("orig_req", JRequest(rq, sim)).str("orig", TxHex(*orig)).i("orig_fee", cr.fee).raw("orig_inputs", orig_inputs).b("orig_all_mine", orig_all_mine)
+            .raw("orig_mine_out", vh::JArr(orig_mine)).str("orig_status", orig_status).b("wallet_desc", wallet_desc).b("pool_desc", pool_desc).b("target_is_orig", target == orig_txid)
+            .i("req_rate", req_rate).raw("outputs", vh::JArr(jouts)).i("incr", incr).i("min_relay", min_relay).i("max_tx_fee", sim.W().m_default_max_tx_fee)
+            .str("result", BumpResultName(res)).str("errors", errtxt).b("dump_same", dump_before == dump_after)
+            .str("dump_before", WalletSim::DumpDigest(dump_before)).str("dump_after", WalletSim::DumpDigest(dump_after));
+        if (cr.change_pos) j.i("orig_change_pos", *cr.change_pos); else j.null("orig_change_pos");
+        if (oci) j.i("oci", *oci); else j.null("oci");
+        if (res != fb::Result::OK) {
+            if (dump_before != dump_after) {
+                // keep the first differing line as a witness
+                size_t a = 0;
+                while (a < dump_before.size() && a < dump_after.size() && dump_before[a] == dump_after[a]) ++a;
+                const size_t ls = dump_after.rfind('\n', a) == std::string::npos ? 0 : dump_after.rfind('\n', a) + 1;
+                j.str("dump_diff", dump_after.substr(ls, 300));
+            }
+            (expect_refusal ? st.refused_expected : st.refused_other)++;
+            vh::log().rec(j);
+            HouseKeeping(w, blocks, funded);
+            continue;
+        }
+        j.i("old_fee", old_fee).i("new_fee", new_fee);
+        const bool signed_ok = fb::SignTransaction(sim.W(), mtx);
+        const CTransactionRef bumped = MakeTransactionRef(mtx);
+        j.b("signed", signed_ok).str("new", TxHex(*bumped)).raw("new_inputs", JInputValues(*bumped, sim, rq.external));
+        std::vector<std::string> new_mine;
+        {
+            LOCK(sim.W().cs_wallet);
+            for (const auto& o_ : bumped->vout) new_mine.push_back(sim.W().IsMine(o_.scriptPubKey) ? "1" : "0");
+        }
+        j.raw("new_mine_out", vh::JArr(new_mine));
+        if (signed_ok) {
+            const Accept a = sim.TestAccept(bumped);
+            j.raw("accept", vh::J().b("ok", a.ok).str("reason", a.reason).i("vsize", a.vsize).i("fees", a.fees).done());
+            sim.TakeRemovals();
+            std::vector<bilingual_str> cerrs;
+            Txid bumped_txid;
+            const fb::Result cres = fb::CommitTransaction(sim.W(), orig_txid, std::move(mtx), cerrs, bumped_txid);
+            sim.LedgerMut().NoteTx(bumped);
+            sim.Sync();
+            bool replaced_notified = false;
+            for (const auto& [txid, reason] : sim.TakeRemovals()) {
+                if (txid == orig_txid && reason == "replaced") replaced_notified = true;
+            }
+            std::string cerrtxt;
+            for (const auto& e : cerrs) cerrtxt += e.original + " | ";
+            bool marked = false;
+            {
+                LOCK(sim.W().cs_wallet);
+                const wallet::CWalletTx* ow = sim.W().GetWalletTx(orig_txid);
+                const wallet::CWalletTx* nw = sim.W().GetWalletTx(bumped->GetHash());
+                marked = ow && nw && ow->m_replaced_by_txid == bumped->GetHash() && nw->m_replaces_txid == orig_txid;
+            }
+            j.str("commit_result", BumpResultName(cres)).str("commit_errors", cerrtxt).b("bumped_txid_ok", bumped_txid == bumped->GetHash())
+                .str("new_status", StatusName(sim.Ledger().Status(bumped->GetHash()))).str("orig_status_after", StatusName(sim.Ledger().Status(orig_txid)))
+                .b("replaced_notified", replaced_notified).b("marked", marked);
+        }
+        ++st.ok;
+        vh::log().rec(j);
+        HouseKeeping(w, blocks, funded);
+    }
+    vh::log().rec(vh::J().u("case", c).b("summary", true).i("attempts", st.attempts).i("ok", st.ok).i("refused_expected", st.refused_expected).i("refused_other", st.refused_other).i("skipped", st.skipped));
+}
+
 } // namespace
 
 VH_CMD(wallet_balance)
@@ -523,6 +1358,29 @@ VH_CMD(wallet_balance)
         vh::set_case(c);
         vh::Rng rng(args.seed, c);
         RunBalanceHistory(c, rng, steps);
+    }
+    return 0;
+}
+
+VH_CMD(wallet_create)
+{
+    const int ops = static_cast<int>(args.geti("ops", 16));
+    const bool tiny = args.geti("tiny", 0) != 0;
+    for (uint64_t c = args.from; c < args.to; ++c) {
+        vh::set_case(c);
+        vh::Rng rng(args.seed, c);
+        RunCreateCase(c, rng, ops, tiny);
+    }
+    return 0;
+}
+
+VH_CMD(wallet_bump)
+{
+    const int ops = static_cast<int>(args.geti("ops", 12));
+    for (uint64_t c = args.from; c < args.to; ++c) {
+        vh::set_case(c);
+        vh::Rng rng(args.seed, c);
+        RunBumpCase(c, rng, ops);
     }
     return 0;
 }
